@@ -236,8 +236,15 @@ def _run_one(pid, module, mode, wd, binary, name, cfgtext, sim, depth, keep, rng
         fh.write(cfgtext)
     p, fo, fe, outp, errp = _start_driver(binary, mode, wd, name, extra)
     cnt = {"seen": 0, "sent": 0, "invalid": 0}
+    seen = set()
 
     def sink(o):
+        if sim:
+            # random walks revisit cases: replay each distinct case once
+            h = hash(json.dumps(o, sort_keys=True))
+            if h in seen:
+                return
+            seen.add(h)
         cnt["seen"] += 1
         if o.get("valid") is False:
             cnt["invalid"] += 1
